@@ -651,7 +651,8 @@ namespace
         return out;
     }
 
-    void indep_fill(IndepWorld& W, Rng& rng, std::size_t max_side, int what, std::size_t nsteps)
+    // bias: 0 any operator family, 1 mostly the multiple-direction router, 2 sequences with a sink resolver only
+    void indep_fill(IndepWorld& W, Rng& rng, std::size_t max_side, int what, std::size_t nsteps, int bias = 0)
     {
         GridGenOpts o;
         o.max_side = max_side;
@@ -667,7 +668,12 @@ namespace
                 break;
         }
         W.env.R = ref_geom(W.env.g);
-        switch (rng.below(6))
+        std::uint64_t variant = rng.below(6);
+        if (bias == 1 && rng.chance(0.6))
+            variant = 3;
+        else if (bias == 2)
+            variant = 1 + rng.below(4);
+        switch (variant)
         {
             case 0:
                 W.ops = { op_single() };
@@ -701,7 +707,7 @@ namespace
         std::string c1, c2;
         in.mask = gen_mask(rng, W.env.g, W.env.R, c1);
         in.custom_bl = gen_base_levels(rng, W.env.R, in.bl, c2);
-        fix_domain(rng, W.env.R, in, true);
+        fix_domain(rng, W.env.R, in, false);
         W.mask = in.mask;
         W.bl = in.bl;
         W.custom_bl = in.custom_bl;
@@ -728,10 +734,16 @@ namespace
     {
         int what = 1;
         const char* P = "C09";
-        if (prop == "C07")
+        // the flow properties (filled elevation, accumulation, router tables, traversal orders, basin labels) are all part of the
+        // routed state compared here: checked under whichever of them is being run
+        static const char* const flow_props[] = { "C01", "C02", "C03", "C04", "C05", "C06", "C19" };
+        for (auto fp : flow_props)
+            if (prop == fp)
+                P = fp;
+        if (prop == "C07" || prop == "C17" || prop == "C18")
         {
             what = 0;
-            P = "C07";
+            P = prop == "C17" ? "C17" : (prop == "C18" ? "C18" : "C07");
         }
         else if (prop == "C12" || prop == "C13")
         {
@@ -752,8 +764,17 @@ namespace
         clear_delays();
         const std::size_t nsteps = static_cast<std::size_t>(rng.range(2, 5));
         IndepWorld A, B;
-        indep_fill(A, rng, max_side, what, nsteps);
-        indep_fill(B, rng, max_side, what, nsteps);
+        const int bias = (prop == "C03" || prop == "C05") ? 1 : ((prop == "C01" || prop == "C02") ? 2 : 0);
+        indep_fill(A, rng, max_side, what, nsteps, bias);
+        indep_fill(B, rng, max_side, what, nsteps, bias);
+        if (rng.chance(0.7))
+        {
+            // mostly the same operator family in both worlds: state shared by accident lives in one code path
+            B.ops = A.ops;
+            B.multi = A.multi;
+            if (B.multi)
+                B.n_exp = 1.0;
+        }
         Hasher ch;
         A.env.g.hash_into(ch);
         B.env.g.hash_into(ch);
@@ -767,8 +788,8 @@ namespace
         const int rounds = 2;
         for (int round = 0; round < rounds; ++round)
         {
-            indep_build(A);
-            indep_build(B);
+            // every object of a family (grid, flow graph, eroders) is also *constructed* on the family's thread, at the same time
+            // as the other family constructs its own
             std::vector<Digest> gotA, gotB;
             std::atomic<int> ready{ 0 };
             auto body = [&](IndepWorld& W, std::vector<Digest>& got)
@@ -776,6 +797,7 @@ namespace
                 ready.fetch_add(1);
                 while (ready.load() < 2)
                     std::this_thread::yield();
+                indep_build(W);
                 got = indep_run(W, what);
             };
             std::thread tb([&]() { body(B, gotB); });
@@ -913,7 +935,9 @@ namespace
                 .s("detail", d)
                 .str();
         };
-        const int nsteps = static_cast<int>(rng.range(1, 3));
+        const int nsteps = static_cast<int>(rng.range(1, 3)) + (variant >= 3 ? 1 : 0);
+        const int snap_threads = static_cast<int>(rng.range(2, 6));
+        const int snap_min_level = static_cast<int>(rng.pick(std::vector<long>{ 0, 0, 2, 5 }));
         FlowInputs in;
         for (int s = 0; s < nsteps; ++s)
         {
@@ -929,7 +953,7 @@ namespace
                 in.mask = mk;
                 in.custom_bl = gen_base_levels(rng, env.R, in.bl, in.bl_cls) || in.custom_bl;
             }
-            fix_domain(rng, env.R, in, true);
+            fix_domain(rng, env.R, in, false);
             hash_inputs(ch, in);
             apply_inputs(*SG.graph, env.g, in);
             apply_inputs(*PG.graph, env.g, in);
@@ -1114,6 +1138,32 @@ namespace
                         break;
                 }
             }
+            if (variant >= 3)
+            {
+                // graph snapshots are flow graphs too: the same level-parallel kernel, with the same settings at every update of the
+                // case, applied to the snapshot must equal the sequential application (the snapshot's levels change with every update
+                // of its parent, never through an update of its own)
+                graph_t& psnap = PG.graph->graph_snapshot("s");
+                graph_t& ssnap = SG.graph->graph_snapshot("s");
+                std::vector<double> ref = run_kernel(ssnap, fs::flow_graph_traversal_dir::breadth_upstream, 1, 0, 0, kin);
+                std::vector<std::atomic<int>> per_node(n);
+                std::vector<double> got = run_kernel(psnap, fs::flow_graph_traversal_dir::breadth_upstream, snap_threads, 0, snap_min_level, kin, nullptr, &per_node);
+                hist.push_back("kernel on snapshot(breadth_upstream, threads=" + std::to_string(snap_threads) + ", min_level=" + std::to_string(snap_min_level) + ")");
+                R.count("c10.parallel_kernels_on_snapshots");
+                for (std::size_t i = 0; i < n; ++i)
+                {
+                    if (per_node[i].load() != 1)
+                    {
+                        R.violation(P, "kernel_not_applied_exactly_once", witness(in, "snapshot graph, node " + std::to_string(i) + " visited " + std::to_string(per_node[i].load()) + " times"));
+                        break;
+                    }
+                    if (bits(got[i]) != bits(ref[i]))
+                    {
+                        R.violation(P, "parallel_kernel_differs:snapshot", witness(in, "snapshot graph, node " + std::to_string(i) + ": " + jhex(got[i]) + " vs sequential " + jhex(ref[i])));
+                        break;
+                    }
+                }
+            }
         }
         clear_delays();
         R.set_case_hash(ch.h);
@@ -1158,9 +1208,12 @@ main(int argc, char** argv)
                                else
                                    pool_case(R_, rng, delays, thorough ? 5000 : 2000);
                            }
+                           else if ((prop == "C03" || prop == "C04" || prop == "C06") && k % 2 == 1)
+                               indep_case(R_, rng, prop, max_side);
                            else if (prop == "C10" || prop == "C03" || prop == "C04" || prop == "C06")
                                graph_case(R_, rng, delays, max_side, repeats);
-                           else if (prop == "C07" || prop == "C09" || prop == "C12" || prop == "C13" || prop == "C14")
+                           else if (prop == "C07" || prop == "C09" || prop == "C12" || prop == "C13" || prop == "C14" || prop == "C01" || prop == "C02"
+                                    || prop == "C05" || prop == "C19" || prop == "C17" || prop == "C18")
                                indep_case(R_, rng, prop, max_side);
                            else
                            {
